@@ -125,6 +125,8 @@ var extTypes = []struct{ j5, full, kind string }{
 
 var descTexts = []string{"a field", "the id", "x", "with \"quotes\"", "Two  spaces, a comma; and a colon: here.", "trailing space ", "// looks like a comment", "unicode \u00e9\u00df"}
 
+var blockTexts = []string{"one line", "first line\nsecond line", "Three\nlines of\ntext.", "with \"quotes\" inside\nand a second line"}
+
 // textNoise: an attribute the compiler accepts and the compared output must not depend on (an
 // explicit protoField number), and a description (compared: it becomes the field's leading comment)
 func textNoise(r *vh.Rand, u *uField) {
@@ -133,6 +135,10 @@ func textNoise(r *vh.Rand, u *uField) {
 	}
 	if r.Chance(10) {
 		u.Desc = vh.Pick(r, descTexts)
+		if r.Chance(35) {
+			// the block form `| text`: the only one that can hold several lines
+			u.Desc, u.DescBlock = vh.Pick(r, blockTexts), true
+		}
 	}
 }
 
@@ -143,6 +149,9 @@ func addDescriptions(r *vh.Rand, d *entityDecl) {
 	for i := range d.Events {
 		if r.Chance(15) {
 			d.Events[i].Desc = vh.Pick(r, descTexts)
+			if r.Chance(35) {
+				d.Events[i].Desc = vh.Pick(r, blockTexts[1:])
+			}
 		}
 	}
 	if r.Chance(15) {
